@@ -133,10 +133,17 @@ def compTokens : List Str :=
 /-- half of the time a token soup, otherwise a '/'-separated list of component-like tokens (mostly the
 name of the marker script, so that many imports find a file) with optional outer whitespace -/
 def genRaw : Gen Str := do
-  if ← chance 1 2 then
+  let mode ← rand 4
+  if mode ≤ 1 then
     let n ← rand 7
     let parts ← genList (n + 1) (pick tokens)
     pure parts.flatten
+  else if mode == 2 then
+    -- a path that names a marker script through harmless detours
+    let n ← rand 4
+    let parts ← genList n (pick (["a", "a", "a", ".", "", "a/..", "zz/.."].map String.toList))
+    let post ← pick ["", "", ".arrai", " ", ".arrai\t"]
+    pure (joinSlash (parts ++ [['a']]) ++ post.toList)
   else
     let n ← rand 4
     let parts ← genList (n + 1) (pick compTokens)
